@@ -113,7 +113,7 @@ func isDisturbance(op string) bool {
 // and nothing that was on the replica before the disturbance was rewritten.
 func c04Check() *HistCheck {
 	type st struct {
-		before   *c04Snap
+		before    *c04Snap
 		disturbed bool
 	}
 	states := map[*scn.Scn]*st{}
